@@ -302,3 +302,55 @@ func inspected(toks []lexer.Token, llk *grammar.LLk, err error) []lexer.Token {
 	}
 	return toks[:k]
 }
+
+// C18 (c''): no state between statements, systematically over the grammar: the
+// first statement is a witness sentence for alternative ALT of rule RULE (the
+// sentences C17 derives from the grammar tables, one per place where the rule
+// is mentioned), so that every hook-carrying alternative is exercised as "the
+// statement parsed earlier"; the second is a corpus statement.
+func HarnessC18NoStateWitness() {
+	g := grammar.BQL()
+	rs := rules(g)
+	min := minimalExpansions(g)
+	s := rs[verif.Choice("rule", len(rs))]
+	ai := verif.Choice("alt", len((*g)[s]))
+	cands := candidates(g, s, ai, min)
+	if len(cands) == 0 {
+		return
+	}
+	text1 := render(cands[verif.Choice("cand", len(cands))])
+	text2 := c18Corpus[verif.Choice("second", len(c18Corpus))]
+	shared, err := grammar.NewParser(grammar.SemanticBQL())
+	verif.Assume(err == nil)
+	var st2 *semantic.Statement
+	var err1, err2 error
+	if !noPanic("C18/nostate/no-panic", func() {
+		err1 = shared.Parse(grammar.NewLLk(text1, 1), &semantic.Statement{})
+		st2 = &semantic.Statement{}
+		err2 = shared.Parse(grammar.NewLLk(text2, 1), st2)
+	}) {
+		return
+	}
+	fresh, ferr := parseText(grammar.SemanticBQL(), text2)
+	verif.Reach("parsed")
+	hasBound := func(q string) bool {
+		return strings.Contains(q, " before ") || strings.Contains(q, " after ") || strings.Contains(q, " between ")
+	}
+	switch {
+	case err1 != nil:
+		verif.Class("after-a-rejected-statement")
+	case strings.Contains(text1, " between ") && hasBound(text2):
+		verif.Class("global-time-bound-after-an-accepted-BETWEEN")
+	default:
+		verif.Class("after-an-accepted-statement")
+	}
+	if verif.Param("SHOW", 0) == 1 {
+		verif.Observe("first", text1)
+		verif.Observe("second", text2)
+	}
+	verif.Assert((err2 == nil) == (ferr == nil), "C18/nostate/same-verdict")
+	if err2 == nil && ferr == nil {
+		verif.Assert(fingerprint(st2) == fingerprint(fresh), "C18/nostate/same-meaning")
+	}
+	verif.Class("")
+}
